@@ -23,7 +23,7 @@ def runLoop (c : Chan) (sent : List String) (ended : Option Bool) : Nat → Chan
     let (c, sent) :=
       if !c.alive then ({ c with waiting := [] }, sent ++ c.waiting.map fun m => s!"a{m.seq}:noconn")
       else
-        let (c', done) := admit c 4096
+        let (c', done) := letIn c 4096
         (c', sent ++ done.map fun m => s!"a{m.seq}:ok")
     let after := (c.syncQ.length, c.asyncQ.length, c.waiting.length, c.inQ.length, c.alive)
     if before == after then (c, sent, ended) else runLoop c sent ended fuel
